@@ -1159,7 +1159,11 @@ mod structural {
 //      `fin`: homology of the final complex from the library = from the model's matrices = from the cube of
 //      resolutions (Lean reference), evaluated inside the driver.
 
-mod engine {
+pub struct Plan { pub cap: usize, pub with_ref: bool, pub malformed: bool }
+
+// one copy of the engine stream per coefficient ring (`TngComplex<R>` for R = i64, Ratio<i64>, FF2, FF<3>)
+macro_rules! engine_mod { ($name:ident, $R:ty, $tag:expr, $from:expr, $tor:expr) => {
+mod $name {
     use super::*;
     use super::structural::{dots_of, t_txt};
     use std::collections::BTreeMap;
@@ -1168,7 +1172,11 @@ mod engine {
     use yui_kh::kh::{KhAlgGen, KhLabel};
     use yui_link::{Crossing, CrossingType, State};
 
-    type C = TngComplex<i64>;
+    pub type Rg = $R;
+    type C = TngComplex<Rg>;
+    pub const TAG: &str = $tag;
+    pub fn of(x: i64) -> Rg { ($from)(x) }
+    fn tor(x: &Rg) -> BigInt { ($tor)(x) }
     const TEXT_LIMIT: usize = 1200;
     const WF_LIMIT: usize = 24;
 
@@ -1184,9 +1192,9 @@ mod engine {
         format!("{}/{}/{}/{}/{}", t_txt(c.src()), t_txt(c.tgt()), c.genus(), x, y)
     }
     fn cob_txt(k: &Cob) -> String { if k.is_empty() { "_".into() } else { k.comps().map(comp_txt).collect::<Vec<_>>().join("+") } }
-    fn lc_txt(f: &LcCob<i64>) -> String {
+    fn lc_txt(f: &LcCob<Rg>) -> String {
         if f.is_zero() { return "0".into() }
-        let mut v: Vec<String> = f.iter().map(|(c, r)| format!("{}*{}", r, cob_txt(c))).collect();
+        let mut v: Vec<String> = f.iter().map(|(c, r)| format!("{}*{}", r.txt(), cob_txt(c))).collect();
         v.sort();
         v.join("|")
     }
@@ -1254,12 +1262,13 @@ mod engine {
         pub slots: BTreeMap<usize, C>,
         pub steps: usize,
         pub dead: bool,           // an unexpected panic left a slot in an unknown state: the script stops
-        pub ht: (i64, i64),
+        pub ht: (Rg, Rg),
         pub greedy_above: usize,
     }
     impl<'a> Run<'a> {
-        pub fn new(s: &'a mut Sink, ht: (i64, i64)) -> Self {
-            s.case("eg new", "ok", false);
+        pub fn new(s: &'a mut Sink, ht: (Rg, Rg)) -> Self {
+            s.case(&format!("eg new {}", TAG), "ok", false);
+            s.count(&format!("eng.ring.{}", TAG));
             Run { s, slots: BTreeMap::new(), steps: 0, dead: false, ht, greedy_above: 24 }
         }
         fn emit(&mut self, kind: &str, req: String, reply: String) {
@@ -1272,7 +1281,7 @@ mod engine {
             let c = C::init(&self.ht.0, &self.ht.1, sh, bp);
             let reply = dump(&c);
             self.slots.insert(i, c);
-            self.emit("init", format!("eg init {} {} {} {} {} {}", i, self.ht.0, self.ht.1, sh.0, sh.1, bp.map(|e| e.to_string()).unwrap_or("-".into())), reply);
+            self.emit("init", format!("eg init {} {} {} {} {} {}", i, self.ht.0.txt(), self.ht.1.txt(), sh.0, sh.1, bp.map(|e| e.to_string()).unwrap_or("-".into())), reply);
         }
         pub fn app(&mut self, i: usize, x: &Crossing) {
             let e = x.edges();
@@ -1308,17 +1317,16 @@ mod engine {
         /// of resolutions give the same tables
         pub fn fin(&mut self, i: usize, red: bool, link: &Link, with_ref: bool, desc: &str) {
             let c = self.slots.remove(&i).unwrap();
-            let bg = self.ht == (0, 0);
+            let bg = self.ht.0.is_zero() && self.ht.1.is_zero();
             let req = format!("eg fin {} {} {} | {}", i, red as u8, with_ref as u8, link_txt(link));
             let res = guard(|| {
                 let kc = c.into_kh_complex(vec![]);
                 let gens: Vec<String> = kc.h_range().map(|i| kc.rank(i).to_string()).collect();
                 let kh = kc.homology();
-                let tor = |x: &i64| BigInt::from(*x);
-                let plain = hom_table(kh.support().map(|i| { let g = kh.get(i); (i, g.rank(), g.tors().iter().cloned().collect::<Vec<i64>>()) }).collect(), &tor);
+                let plain = hom_table(kh.support().map(|i| { let g = kh.get(i); (i, g.rank(), g.tors().iter().cloned().collect::<Vec<Rg>>()) }).collect(), &tor);
                 let big = if bg {
                     let kb = kh.into_bigraded();
-                    let cells = kb.support().map(|idx| { let g = kb.get(idx); ((idx.0, Some(idx.1)), group_txt(g.rank(), g.tors().iter().map(|x| BigInt::from(*x)).collect())) }).collect();
+                    let cells = kb.support().map(|idx| { let g = kb.get(idx); ((idx.0, Some(idx.1)), group_txt(g.rank(), g.tors().iter().map(|x| tor(x)).collect())) }).collect();
                     table_txt(cells)
                 } else { String::new() };
                 (kc, gens.join(","), plain, big)
@@ -1400,20 +1408,20 @@ mod engine {
         }
     }
 
-    pub struct Plan { pub cap: usize, pub with_ref: bool, pub malformed: bool }
+    pub use super::Plan;
 
     /// one explicit script for one diagram
-    pub fn script(s: &mut Sink, r: &mut Rng, name: &str, link: &Link, ht: (i64, i64), red: bool, plan: &Plan) {
+    pub fn script(s: &mut Sink, r: &mut Rng, name: &str, link: &Link, ht: (Rg, Rg), red: bool, plan: &Plan) {
         let data = link.data().clone();
         let n = data.len();
         let mut order: Vec<usize> = (0..n).collect();
         r.shuffle(&mut order);
-        let total = KhComplex::<i64>::deg_shift_for(link, red);
+        let total = KhComplex::<Rg>::deg_shift_for(link, red);
         let base = if red { link.first_edge() } else { None };
         let split = n >= 2 && r.chance(1, 3);
-        let desc = format!("engine script {} (h,t)=({},{}) reduced={} order={:?} split={} link: {}", name, ht.0, ht.1, red, order, split, link_txt(link));
+        let desc = format!("engine script {} ring={} (h,t)=({},{}) reduced={} order={:?} split={} link: {}", name, TAG, ht.0.txt(), ht.1.txt(), red, order, split, link_txt(link));
         s.count(&format!("eng.crossings.{}", n));
-        s.count(&format!("eng.ht.{},{}", ht.0, ht.1));
+        s.count(&format!("eng.ht.{}.{},{}", TAG, ht.0.txt(), ht.1.txt()));
         s.count(if red { "eng.reduced" } else { "eng.unreduced" });
         s.count(if split { "eng.split" } else { "eng.single" });
         let mut run = Run::new(s, ht);
@@ -1485,14 +1493,14 @@ mod engine {
         let l = Link::trefoil();
         let data = l.data().clone();
         {
-            let mut run = Run::new(s, (0, 0));
+            let mut run = Run::new(s, (of(0), of(0)));
             run.init(0, (0, 0), None);
             run.app(0, &data[0]); run.app(0, &data[1]); run.app(0, &data[2]);
             run.malformed(r, 0);
             run.fin(0, false, &l, false, "fin before delooping");     // `assert!(self.is_completely_delooped())`
         }
         {
-            let mut run = Run::new(s, (0, 0));
+            let mut run = Run::new(s, (of(0), of(0)));
             run.init(0, (0, 0), Some(1));
             run.init(1, (0, 0), Some(2));
             run.app(0, &data[0]);
@@ -1502,7 +1510,7 @@ mod engine {
         }
         {
             // a resolved crossing, the empty complex, and a kink closed up in one step
-            let mut run = Run::new(s, (1, 0));
+            let mut run = Run::new(s, (of(1), of(0)));
             run.init(0, (0, 0), None);
             run.app(0, &Crossing::from_pd_code([0, 1, 1, 0]).resolved(Bit::Bit0));
             run.app(0, &Crossing::from_pd_code([2, 2, 3, 3]));
@@ -1512,59 +1520,85 @@ mod engine {
             run.query(0);
         }
     }
+
+    /// the scripts of one ring: `corpus` = every small hand-written diagram with every parameter pair (else a random
+    /// third of them), then `n_scripts` random diagrams
+    pub fn stream(s: &mut Sink, r: &mut Rng, thorough: bool, cases: &[Case], hts: &[(Rg, Rg)], corpus: bool, n_scripts: usize, n_big: usize) {
+        rejected(s, r);
+        for c in cases.iter().take(12) {
+            if c.link.data().len() > 5 { continue }
+            for ht in hts {
+                if !corpus && !r.chance(1, 3) { continue }
+                let plan = Plan { cap: 48, with_ref: true, malformed: true };
+                script(s, r, &c.name, &c.link, ht.clone(), false, &plan);
+                if ht.1.is_zero() && !c.link.is_empty() && (thorough || r.bool()) { script(s, r, &c.name, &c.link, ht.clone(), true, &plan); }
+            }
+        }
+        let max_n = if thorough { 8 } else { 6 };
+        let mut pool: Vec<&Case> = cases.iter().filter(|c| c.link.data().len() <= max_n && c.link.data().len() >= 2).collect();
+        r.shuffle(&mut pool);
+        for k in 0..n_scripts {
+            if pool.is_empty() { break }
+            let c = pool[k % pool.len()];
+            let ht = r.pick(hts).clone();
+            let red = ht.1.is_zero() && r.chance(1, 3);
+            let plan = Plan { cap: if thorough { 64 } else { 40 }, with_ref: true, malformed: r.chance(1, 4) };
+            script(s, r, &c.name, &c.link, ht, red, &plan);
+        }
+        // a few larger ones in the thorough tier (9–10 crossings; the cube reference only up to 9)
+        if thorough && n_big > 0 {
+            let mut names = table_names(10);
+            names.retain(|n| load(n).map(|l| l.crossing_num() >= 9).unwrap_or(false));
+            r.shuffle(&mut names);
+            for n in names.into_iter().take(n_big) {
+                if let Some(l) = load(&n) {
+                    let ht = r.pick(hts).clone();
+                    let plan = Plan { cap: 40, with_ref: l.crossing_num() <= 9, malformed: false };
+                    script(s, r, &n, &l, ht, false, &plan);
+                }
+            }
+            for _ in 0..(n_big / 2) {
+                let strands = 3 + r.below(2) as usize;
+                let len = 9 + r.below(2) as usize;
+                let (w, l) = random_braid(r, strands, len);
+                if let Some(l) = l { if l.crossing_num() <= 10 {
+                    let plan = Plan { cap: 40, with_ref: l.crossing_num() <= 9, malformed: false };
+                    let ht = r.pick(hts).clone();
+                    script(s, r, &format!("braid{}{:?}", strands, w), &l, ht, false, &plan);
+                } }
+            }
+        }
+    }
 }
+} }
+
+engine_mod!(engine, i64, "Z", |x: i64| x, |x: &i64| BigInt::from(*x));
+engine_mod!(engine_q, Ratio<i64>, "Q", |x: i64| Ratio::from(x), |_x: &Ratio<i64>| BigInt::from(0));
+engine_mod!(engine_f2, FF2, "F2", |x: i64| FF2::from(x), |_x: &FF2| BigInt::from(0));
+engine_mod!(engine_f3, FF<3>, "F3", |x: i64| FF::<3>::new(x as i32), |_x: &FF<3>| BigInt::from(0));
 
 struct Case { name: String, link: Link }
 
 fn engine_stream(s: &mut Sink, r: &mut Rng, thorough: bool, cases: &[Case]) {
-    use engine::{script, rejected, Plan};
-    let hts: [(i64, i64); 5] = [(0, 0), (1, 0), (0, 1), (2, 3), (-1, 5)];
-    rejected(s, r);
-    // hand-written corpus: every small diagram, all parameter pairs, with the malformed requests mixed in
-    for c in cases.iter().take(12) {
-        if c.link.data().len() > 5 { continue }
-        for &ht in &hts {
-            if !thorough && ht == (-1, 5) { continue }
-            let plan = Plan { cap: 48, with_ref: true, malformed: true };
-            script(s, r, &c.name, &c.link, ht, false, &plan);
-            if ht.1 == 0 && !c.link.is_empty() && (thorough || r.bool()) { script(s, r, &c.name, &c.link, ht, true, &plan); }
-        }
+    // ℤ: units ±1 are self-inverse; ℚ and 𝔽₃ have units that are not (2·2⁻¹, 2·2 = 1); 𝔽₂ has −1 = 1
+    {
+        let hts: Vec<(i64, i64)> = if thorough { vec![(0, 0), (1, 0), (0, 1), (2, 3), (-1, 5)] } else { vec![(0, 0), (1, 0), (0, 1), (2, 3)] };
+        engine::stream(s, r, thorough, cases, &hts, true, if thorough { 60 } else { 14 }, if thorough { 4 } else { 0 });
     }
-    // random diagrams: table links, braid closures, kinked / renumbered variants (the complex stream's cases) …
-    let max_n = if thorough { 8 } else { 6 };
-    let mut pool: Vec<&Case> = cases.iter().filter(|c| c.link.data().len() <= max_n && c.link.data().len() >= 2).collect();
-    r.shuffle(&mut pool);
-    let n_scripts = if thorough { 110 } else { 36 };
-    for k in 0..n_scripts {
-        if pool.is_empty() { break }
-        let c = pool[k % pool.len()];
-        let ht = *r.pick(&hts[..4]);
-        let red = ht.1 == 0 && r.chance(1, 3);
-        let plan = Plan { cap: if thorough { 64 } else { 40 }, with_ref: true, malformed: r.chance(1, 4) };
-        script(s, r, &c.name, &c.link, ht, red, &plan);
+    {
+        let q = |a: i64, b: i64| Ratio::new(a, b);
+        let hts = vec![(q(0, 1), q(0, 1)), (q(1, 2), q(0, 1)), (q(2, 1), q(0, 1)), (q(0, 1), q(1, 1)), (q(3, 2), q(2, 3)), (q(-1, 3), q(0, 1))];
+        engine_q::stream(s, r, thorough, cases, &hts, true, if thorough { 40 } else { 12 }, if thorough { 2 } else { 0 });
     }
-    // … and a few larger ones in the thorough tier (9–10 crossings; the cube reference only up to 9)
-    if thorough {
-        let mut names = table_names(10);
-        names.retain(|n| load(n).map(|l| l.crossing_num() >= 9).unwrap_or(false));
-        r.shuffle(&mut names);
-        for n in names.into_iter().take(5) {
-            if let Some(l) = load(&n) {
-                let ht = *r.pick(&hts[..3]);
-                let plan = Plan { cap: 40, with_ref: l.crossing_num() <= 9, malformed: false };
-                script(s, r, &n, &l, ht, false, &plan);
-            }
-        }
-        for _ in 0..3 {
-            let strands = 3 + r.below(2) as usize;
-            let len = 9 + r.below(2) as usize;
-            let (w, l) = random_braid(r, strands, len);
-            if let Some(l) = l { if l.crossing_num() <= 10 {
-                let plan = Plan { cap: 40, with_ref: l.crossing_num() <= 9, malformed: false };
-                let ht = *r.pick(&hts[..3]);
-                script(s, r, &format!("braid{}{:?}", strands, w), &l, ht, false, &plan);
-            } }
-        }
+    {
+        let f = |a: i32| FF::<3>::new(a);
+        let hts = vec![(f(0), f(0)), (f(1), f(0)), (f(2), f(0)), (f(0), f(1)), (f(2), f(1)), (f(1), f(2))];
+        engine_f3::stream(s, r, thorough, cases, &hts, true, if thorough { 40 } else { 12 }, if thorough { 2 } else { 0 });
+    }
+    {
+        let f = |a: i64| FF2::from(a);
+        let hts = vec![(f(0), f(0)), (f(1), f(0)), (f(0), f(1)), (f(1), f(1))];
+        engine_f2::stream(s, r, thorough, cases, &hts, true, if thorough { 30 } else { 8 }, if thorough { 2 } else { 0 });
     }
 }
 
